@@ -49,6 +49,24 @@ pub fn run(ctx: &Ctx) -> i32 {
             rng.shuffle(&mut alts);
             g.rules.push(crate::gram::Rule { name: "S".into(), alts });
             g
+        } else if i % 7 == 3 {
+            // several tokens on one %skip list, scanner states with transitions: every list that ends
+            // up in the generated files has an order that must not depend on the process
+            let mut g = wl::gen_grammar(rng, p);
+            let n = rng.range(3, 6);
+            for j in 0..n {
+                let text = format!("~{}", (b'a' + j as u8) as char);
+                g.terms.push(crate::gram::TermDef::raw(&text));
+                let ti = g.terms.len() - 1;
+                let name = format!("Noise{j}");
+                g.rules.push(crate::gram::Rule { name: name.clone(), alts: vec![vec![crate::gram::Factor::T(ti, Default::default())]] });
+                g.states[0].skip.push(name);
+            }
+            rng.shuffle(&mut g.states[0].skip);
+            g
+        } else if i % 7 == 5 {
+            let sp = crate::wlscan::ScanProfile { max_modes: 3, p_lookahead: 20, p_skip: 80, p_allow_unmatched: 20, p_auto_off: 20, comments: true, lalr: false };
+            crate::wlscan::gen_scan_case(rng, &sp).g
         } else {
             wl::gen_grammar(rng, p)
         };
@@ -121,7 +139,7 @@ pub fn run(ctx: &Ctx) -> i32 {
         let _ = std::fs::remove_dir_all(&dir);
     });
     let _ = std::fs::remove_dir_all(&work);
-    let rule = "case = grammar (tied shared prefixes of equal length in several non-terminals, EBNF variants, deep-k LL grammars, ordinary LL, left-recursive LALR) generated by N separate processes (6 quick / 16 thorough; each with its own std RandomState) through parol::build::Builder exactly as a build script does (parser, trait and expanded-grammar files, rustfmt included); every byte of the three files must be identical across processes and all processes must agree on accept/reject; evaluations = generator processes run; non-trivial = grammar accepted by all processes; distinct by grammar text";
+    let rule = "case = grammar (tied shared prefixes of equal length in several non-terminals, EBNF variants, deep-k LL grammars, ordinary LL, left-recursive LALR, several tokens on one %skip list, scanner layouts with states / transitions / skip lists) generated by N separate processes (6 quick / 16 thorough; each with its own std RandomState) through parol::build::Builder exactly as a build script does (parser, trait and expanded-grammar files, rustfmt included); every byte of the three files must be identical across processes and all processes must agree on accept/reject; evaluations = generator processes run; non-trivial = grammar accepted by all processes; distinct by grammar text";
     let min = if quick { 12 } else { 200 };
     finish(ctx, rep, rule, (min as f64 * ctx.scale) as u64, json!({"processes_per_grammar": nproc}), t0.elapsed().as_secs_f64())
 }
